@@ -492,7 +492,7 @@ func keysRule(c *core.Ctx, rel, name, finder string, table []receiptKey, smgp bo
 			}
 			callee := call.Call.StaticCallee()
 			if callee != finderFn {
-				if smgp && f.Name() == "ID" && callee.Name() == "findSMGPIDValue" {
+				if smgp && f.Name() == "ID" && canonName(callee) == "findSMGPIDValue" {
 					continue
 				}
 				problems = append(problems, "field "+f.Name()+" is not filled by "+finder)
@@ -557,7 +557,7 @@ func keysRule(c *core.Ctx, rel, name, finder string, table []receiptKey, smgp bo
 					continue
 				}
 				call, ok := st.Val.(*ssa.Call)
-				if !ok || call.Call.StaticCallee() == nil || call.Call.StaticCallee().Name() != "findSMGPIDValue" || call.Call.Args[0] != ssa.Value(fn.Params[0]) {
+				if !ok || call.Call.StaticCallee() == nil || canonName(call.Call.StaticCallee()) != "findSMGPIDValue" || call.Call.Args[0] != ssa.Value(fn.Params[0]) {
 					continue
 				}
 				idSet = true
